@@ -276,7 +276,7 @@ def c11_leaf(rng, doc=None):
                           {"path": {"path": 1}}, {"path.x": {"path": [1]}, "b": {"path.first": ["a"]}},
                           {"a": {"path": {"path": ["z"]}}}, [{"path": ["a"]}, {"b": {"path": [2]}}], {"b": [{"path": ["a"]}]},
                           {"b": 1, "path": ["a"]}, {"mode": "x", "n": 2, "path.length": ["a", 0]}, {"a": {"b": 1, "path": [1]}},
-                          [{"b": 1, "path.first": ["a"]}, 3]])
+                          [{"b": 1, "path.first": ["a"]}, 3]] + gen.PATHLIKE_EXTRA)
         rec = dict(rec, actuals=[lit], akw={})
     return ("leaf", rec)
 
